@@ -353,6 +353,8 @@ func asDecState(state interface {
 //@ trusted NOT PROVED: interface dispatch and error-text construction; frame and non-nil result assumed
 //@ modifies asEncState(state).state.Names.unquotedNames, asEncState(state).state.Names.unquotedNames[:cap(asEncState(state).state.Names.unquotedNames)], asEncState(state).state.Names.offsets[:], asDecState(state).state.Names.unquotedNames, asDecState(state).state.Names.unquotedNames[:cap(asDecState(state).state.Names.unquotedNames)], asDecState(state).state.Names.offsets[:], asDecState(state).decodeBuffer.buf[:]
 //@ ensures nonnil: err != nil ==> result != nil
+//@ ensures dec-names: asDecState(state) != nil ==> nsLocalOK(asDecState(state).Names.offsets, asDecState(state).Names.unquotedNames) && nsRemoteOK(asDecState(state).Names.offsets, len(asDecState(state).buf)) && distinctArrays(asDecState(state).Names.unquotedNames, asDecState(state).buf) && len(asDecState(state).Names.offsets) == old(len(asDecState(state).Names.offsets))
+//@ ensures enc-names: asEncState(state) != nil ==> nsLocalOK(asEncState(state).Names.offsets, asEncState(state).Names.unquotedNames) && nsRemoteOK(asEncState(state).Names.offsets, len(asEncState(state).Buf)) && len(asEncState(state).Names.offsets) == old(len(asEncState(state).Names.offsets))
 
 // The callbacks passed to AppendRaw (strconv.Append*, time/duration appenders,
 // MarshalText/AppendText wrappers) only append to the buffer they are given.
